@@ -13,7 +13,7 @@ import (
 var binCodecs = []string{"hex", "b64std", "b64url", "b64rawstd", "b64rawurl"}
 var urlCodecs = []string{"urlq", "urlp"}
 var txtCodecs = []string{"latin1", "utf8", "utf16", "utf16le", "utf16be"}
-var hashNames = []string{"md5", "sha1", "sha256", "sha512"}
+var hashNames = []string{"md4", "md5", "sha1", "sha256", "sha512", "sha3_224", "sha3_256", "sha3_384", "sha3_512"}
 
 type gen struct {
 	ops []string
@@ -105,7 +105,7 @@ func genCodecOps(cfg hlib.Config, part string, r *hlib.Rand, o *hlib.Out) []stri
 	for _, p := range []struct {
 		name string
 		f    func(g *gen, th bool, scale int)
-	}{{"bin", genBin}, {"url", genURL}, {"txt", genTxt}, {"radix", genRadix}, {"hash", genHash}, {"json", genJSON}} {
+	}{{"bin", genBin}, {"url", genURL}, {"url", genURLQuery}, {"txt", genTxt}, {"radix", genRadix}, {"hash", genHash}, {"json", genJSON}, {"xml", genXML}} {
 		if want(p.name) {
 			p.f(g, th, scale)
 		}
@@ -298,6 +298,86 @@ func genURL(g *gen, th bool, scale int) {
 
 }
 
+// URL query strings: to_urlquery | from_urlquery on objects string -> string | [>= 2 strings]
+// (repeated keys), from_urlquery on arbitrary text
+func genURLQuery(g *gen, th bool, scale int) {
+	r := g.r
+	g.add(false, "urlquery rt {}")
+	g.add(false, "urlquery dec -")
+	special := []string{"", "a", "&", "=", ";", "+", " ", "%", "%41", "a=b&c", "é", "\xff", "#", "?", "/"}
+	// every key of <= 1 byte with special values, single and repeated
+	for a := -1; a < 256; a++ {
+		k := ""
+		if a >= 0 {
+			k = string([]byte{byte(a)})
+		}
+		for _, v := range special {
+			g.add(true, "urlquery rt %s", wireOf(map[string]any{k: v}))
+		}
+		g.add(true, "urlquery rt %s", wireOf(map[string]any{k: []any{"1", k, ""}, "k" + k: []any{k, k}}))
+	}
+	for _, k := range special {
+		for _, v := range special {
+			g.add(true, "urlquery rt %s", wireOf(map[string]any{k: []any{v, k}, "z": v}))
+		}
+	}
+	rs := func() string {
+		switch r.Intn(3) {
+		case 0:
+			return special[r.Intn(len(special))]
+		case 1:
+			return randString(r, r.Range(0, 6), 5)
+		default:
+			return string(r.Bytes(r.Range(0, 4)))
+		}
+	}
+	for k := 0; k < 3000*scale; k++ {
+		q := map[string]any{}
+		for i := r.Intn(5); i > 0; i-- {
+			if r.Intn(2) == 0 {
+				a := []any{}
+				for j := r.Range(2, 5); j > 0; j-- {
+					a = append(a, rs())
+				}
+				q[rs()] = a
+			} else {
+				q[rs()] = rs()
+			}
+		}
+		g.add(len(q) > 0, "urlquery rt %s", wireOf(q))
+	}
+	// from_urlquery: all texts of <= 2 bytes, all texts of length 3..5 (thorough: 6) over a small alphabet
+	for a := 0; a < 256; a++ {
+		g.add(true, "urlquery dec %s", hx([]byte{byte(a)}))
+	}
+	for a := 0; a < 65536; a++ {
+		g.add(true, "urlquery dec %s", hx([]byte{byte(a >> 8), byte(a)}))
+	}
+	alpha := []byte("&=;%+a1A")
+	maxN := 5
+	if th {
+		maxN = 6
+	}
+	for n := 3; n <= maxN; n++ {
+		overAlphabet(alpha, n, func(b []byte) { g.add(true, "urlquery dec %s", hx(b)) })
+	}
+	for k := 0; k < 2000*scale; k++ {
+		n := r.Range(6, 40)
+		b := make([]byte, n)
+		for i := range b {
+			switch r.Intn(4) {
+			case 0:
+				b[i] = "&=;%+"[r.Intn(5)]
+			case 1:
+				b[i] = byte(r.U64())
+			default:
+				b[i] = "abc012DEF"[r.Intn(9)]
+			}
+		}
+		g.add(true, "urlquery dec %s", hx(b))
+	}
+}
+
 func genTxt(g *gen, th bool, scale int) {
 	r := g.r
 	// ---------- text encodings
@@ -456,7 +536,7 @@ func genHash(g *gen, th bool, scale int) {
 	for _, h := range hashNames {
 		g.add(false, "%s hash -/0", h)
 		// every length 0..300 (all padding/block-boundary cases of MD5/SHA-1/SHA-256: 55,56,63,64,…;
-		// SHA-512: 111,112,127,128,…)
+		// SHA-512: 111,112,127,128,…; SHA-3 rates 144,136,104,72 and their multiples)
 		for n := 1; n <= 300; n++ {
 			g.add(true, "%s hash %s", h, binOp(r.Bytes(n), n*8))
 		}
@@ -520,6 +600,18 @@ func genJSON(g *gen, th bool, scale int) {
 	for k := 0; k < 300*scale; k++ {
 		g.add(true, "json rt %s", wireOf(jg.integer()))
 	}
+	// ---------- indented output: tojson({indent:n}) | fromjson, to_jq({indent:n}) | from_jq
+	for _, w := range []string{"n", "i-1", "s-", "[]", "{}", "[[]]", "[{}]", "{s-:[]}", "[i1]", "[i1,i2]", "{s61:i1}", "{s61:i1,s62:[i2,{s63:n,s2d:[[]]}]}", "[[[[i1]]]]"} {
+		for _, n := range []int{0, 1, 2, 3, 7} {
+			g.add(true, "jsonind rt %d %s", n, w)
+			g.add(true, "jqlitind rt %d %s", n, w)
+		}
+	}
+	for k := 0; k < 1000*scale; k++ {
+		n := []int{1, 2, 2, 3, 4, 8}[r.Intn(6)]
+		g.add(true, "jsonind rt %d %s", n, wireOf(jg.value(r.Range(1, 5))))
+		g.add(true, "jqlitind rt %d %s", n, wireOf(kg.value(r.Range(1, 5))))
+	}
 	// ---------- fromjson on handwritten and damaged texts
 	hand := []string{
 		"", " ", "null", " null ", "nul", "nulll", "null null", "null,", "true", "false", "tru", "True",
@@ -569,4 +661,148 @@ func genJSON(g *gen, th bool, scale int) {
 			}
 		}
 	}
+}
+
+// XML: array form through to_xml | from_xml({array:true}) (canonical trees and the shapes
+// toXMLFromArray tolerates), and the #seq grouping / ordering rule of the object form
+func genXML(g *gen, th bool, scale int) {
+	r := g.r
+	// ---------- array form: handwritten shapes
+	for _, w := range []string{
+		"[s61,n,[]]", "[s61]", "[s61,[]]", "[s61,{}]", "[s61,{},[]]", "[n,s61]", "[s-,s61,s62]", "[t]", "[]", "[s-]", "[{}]", "[[]]", "[n]",
+		"[s61,{s6b:i1,s6c:n,s6d:t,s6e:[i1],s6f:{s61:i1}},[]]", "[s61,{s2374657874:i5},[]]", "[s61,{s2374657874:n},[]]", "[s61,{s2374657874:[i1]},[]]",
+		"[s61,n,[[s62],s6a756e6b,i1,n,[s63,n,[]],[],[s-],{s61:i1}]]", "[s61,{s6b:s76},[[s62,n,[]]],{s7a:s79},[[s63,n,[]]]]",
+		"[s61,{s2374657874:s20},[]]", "[s61,{s2374657874:s200a0920},[]]", "[s61,{s2374657874:s2078200a},[]]", "[s61,{s2374657874:sc2a0},[]]", "[s61,{s2374657874:sc2a078c2a0},[]]",
+		"[s61,{s2374657874:s0b},[]]", "[s61,{s2374657874:s0c},[]]", "[s61,{s2374657874:s00},[]]", "[s61,{s2374657874:s61016200},[]]", "[s61,{s2374657874:se280a878e28080},[]]",
+		"[s61,{s2374657874:s3c263e2227},[]]", "[s61,{s6b:s3c263e22270a090d20},[]]", "[s61,{s6b:s207820},[]]", "[s61,{s6b:s-,s2374657874:s-},[]]",
+		"[s61,{s2374657874:s610d0a62},[]]", "[s61,{s2374657874:sefbfbe},[]]", "[s61,{s2374657874:sf09f9880},[]]", "[s412e62,{s612d62:s31,s5f63:s32},[]]",
+		"[s61,{s2374657874:s74},[[s62,{s2374657874:s75},[]],[s62,n,[]]]]",
+	} {
+		g.add(true, "xmlarr rt %s", w)
+	}
+	// every code point up to U+0100 (and specials) as text and as attribute value
+	cps := []rune{0x85, 0xa0, 0x1680, 0x2000, 0x200a, 0x2028, 0x2029, 0x202f, 0x205f, 0x3000, 0xd7ff, 0xe000, 0xfffd, 0xfffe, 0xffff, 0x10000, 0x10ffff, 0xfeff}
+	for cp := rune(0); cp <= 0x100; cp++ {
+		cps = append(cps, cp)
+	}
+	for _, cp := range cps {
+		s := string(cp)
+		g.add(true, "xmlarr rt %s", wireOf([]any{"a", map[string]any{"#text": s, "k": s}, []any{}}))
+		g.add(true, "xmlarr rt %s", wireOf([]any{"a", map[string]any{"#text": "x" + s + "y", "k": s + "z" + s}, []any{}}))
+		g.add(true, "xmlarr rt %s", wireOf([]any{"a", map[string]any{"#text": s + "x" + s}, []any{}}))
+	}
+	txt := func() string {
+		switch r.Intn(4) {
+		case 0:
+			return xmlText(r)
+		case 1:
+			return defaultStr(r)
+		case 2:
+			return " \t\n"[r.Intn(3):][:1] + defaultStr(r) + "  "
+		default:
+			return ""
+		}
+	}
+	xname := func() string {
+		const a = "abcdefghijklmnopqrstuvwyzABC_"
+		n := r.Range(1, 5)
+		b := make([]byte, n)
+		for i := range b {
+			b[i] = a[r.Intn(len(a))]
+			if i > 0 && r.Intn(5) == 0 {
+				b[i] = "0123456789.-_"[r.Intn(13)]
+			}
+		}
+		return string(b)
+	}
+	var tree func(depth int, sloppy bool) any
+	tree = func(depth int, sloppy bool) any {
+		var attrs any
+		m := map[string]any{}
+		for i := r.Intn(3); i > 0; i-- {
+			var v any = txt()
+			if sloppy {
+				switch r.Intn(5) {
+				case 0:
+					v = r.Range(-3, 99999)
+				case 1:
+					v = nil
+				case 2:
+					v = r.Bool()
+				}
+			}
+			m[xname()] = v
+		}
+		if r.Intn(2) == 0 {
+			m["#text"] = txt()
+		}
+		if len(m) > 0 || (sloppy && r.Intn(4) == 0) {
+			attrs = m
+		}
+		children := []any{}
+		if depth > 0 {
+			pool := []string{xname(), xname(), xname()}
+			for i := r.Intn(5); i > 0; i-- {
+				c := tree(depth-1, sloppy).([]any)
+				c[0] = pool[r.Intn(3)]
+				children = append(children, c)
+				if sloppy && r.Intn(6) == 0 {
+					children = append(children, []any{"junk", nil, 7}[r.Intn(3)])
+				}
+			}
+		}
+		e := []any{xname(), attrs, children}
+		if sloppy {
+			switch r.Intn(6) {
+			case 0:
+				e = []any{e[0], e[2], e[1]}
+			case 1:
+				e = []any{e[0], e[2]}
+			case 2:
+				e = append(e, "extra", map[string]any{"x": "y"}, []any{})
+			}
+		}
+		return e
+	}
+	for k := 0; k < 1500*scale; k++ {
+		g.add(true, "xmlarr rt %s", wireOf(tree(r.Range(0, 3), k%3 == 0)))
+	}
+	// ---------- #seq: every sequence of <= 6 children named a/b/c, random longer ones (> 12
+	// children: the sort's non-insertion path) with 1..4 distinct names
+	g.add(false, "xmlseq rt -")
+	names := []string{"a", "b", "c"}
+	var rec func(n int, cur []string)
+	rec = func(n int, cur []string) {
+		if len(cur) > 0 {
+			g.add(true, "xmlseq rt %s", joinComma(cur))
+		}
+		if n == 0 {
+			return
+		}
+		for _, x := range names {
+			rec(n-1, append(append([]string(nil), cur...), x))
+		}
+	}
+	rec(6, nil)
+	pool := []string{"a", "b", "c", "d", "zz", "A"}
+	for k := 0; k < 600*scale; k++ {
+		n := r.Range(7, 60)
+		p := pool[:r.Range(1, 4)]
+		cur := make([]string, n)
+		for i := range cur {
+			cur[i] = p[r.Intn(len(p))]
+		}
+		g.add(true, "xmlseq rt %s", joinComma(cur))
+	}
+}
+
+func joinComma(s []string) string {
+	out := ""
+	for i, x := range s {
+		if i > 0 {
+			out += ","
+		}
+		out += x
+	}
+	return out
 }
